@@ -18,7 +18,7 @@ Record rp_cfg := mkCfg {
   cf_pi_issuer : option pystr;     (* context.provider_info["issuer"] *)
   cf_client_id : pystr;
   cf_reg_sigalg : option pystr;    (* registration_response["id_token_signed_response_alg"] *)
-  cf_usage_sigalg : option pystr;  (* the configured id_token_signed_response_alg usage: NOT consulted by the code *)
+  cf_usage_sigalg : option pystr;  (* the configured id_token_signed_response_alg usage (fallback) *)
   cf_allow_none : bool;            (* usage verify_args allow_sign_alg_none *)
   cf_skew : Z;                     (* context.clock_skew *)
   cf_allow_missing_kid : bool;     (* context.allow["missing_kid"] *)
@@ -28,9 +28,17 @@ Record rp_cfg := mkCfg {
 Notation record := (list (pystr * pyval)).
 Record client := mkClient { cl_cfg : rp_cfg; cl_db : list (pystr * record); cl_map : list (pystr * pystr) }.
 
+(* the signing algorithm the services expect: what was registered, else what the client is configured to use
+   (`_reg_res.get(param) or _context.get_usage(param)`, passed on only when truthy) *)
+Definition eff_sigalg (c : rp_cfg) : option pystr :=
+  match cf_reg_sigalg c with
+  | Some (x :: a) => Some (x :: a)
+  | _ => match cf_usage_sigalg c with Some (x :: a) => Some (x :: a) | _ => None end
+  end.
+
 (* Authorization / AccessToken gather_verify_arguments *)
 Definition svc_kwargs (c : rp_cfg) : kwargs :=
-  mkKw (Some (cf_issuer c)) (match cf_client_id c with [] => None | i => Some i end) (cf_reg_sigalg c) None
+  mkKw (Some (cf_issuer c)) (match cf_client_id c with [] => None | i => Some i end) (eff_sigalg c) None
        (cf_allow_none c) (Some (cf_skew c)) None (cf_allow_missing_kid c) None (cf_jar c).
 
 (* ---- Current ---- *)
@@ -44,6 +52,17 @@ Definition db_update (db : list (pystr * record)) (k : pystr) (info : record) : 
   match assoc k db with
   | None => aset k info db
   | Some cur => aset k (dict_update cur info) db
+  end.
+
+(* Current.bind_key(sub, st) refuses when sub is bound to a different state whose record has sub as its nonce *)
+Definition sub_clash (db : list (pystr * record)) (m : list (pystr * pystr)) (st sub : pystr) : bool :=
+  match assoc sub m with
+  | Some s' => negb (str_eqb s' st) &&
+               match assoc s' db with
+               | Some rec' => option_eqb pyval_eqb (assoc (PS "nonce") rec') (Some (VStr sub))
+               | None => false
+               end
+  | None => false
   end.
 
 (* Message.to_dict of a response: the space-separated-list serialiser joins the list again *)
@@ -171,7 +190,9 @@ Section WithHash.
                           match assoc n (cl_map c) with
                           | Some s => if str_eqb s st then
                                         match assoc (PS "sub") idt with
-                                        | Some (VStr sub) => Ok (aset sub st (cl_map c))
+                                        | Some (VStr sub) =>
+                                            if sub_clash (cl_db c) (cl_map c) st sub then Err ValueError
+                                            else Ok (aset sub st (cl_map c))
                                         | _ => Unmodelled
                                         end
                                       else Err E_ParameterError
@@ -321,6 +342,10 @@ Definition op_may_bind (o : op) (k : pystr) : bool :=
       end
   | _ => false
   end.
+
+(* does the operation start a flow that draws k as its nonce *)
+Definition op_draws_nonce (o : op) (k : pystr) : bool :=
+  match o with OBegin _ _ nonce _ => str_eqb nonce k | _ => false end.
 
 (* the client an operation is executed on *)
 Definition op_target (w : list (pystr * client)) (o : op) : option pystr :=
